@@ -420,19 +420,25 @@ class Model:
                 layers = list(f.env.layers[:f.tag_depth])
                 target = ("data", f.owner.idx) if f.owner is not None else None
                 on_top = False
+                target_any_data = False
             else:
+                # "the last component layer" of the context the slot is rendered in: that of the slot's owner, or - when
+                # the slot itself sits in fill content that is being rendered inside another component - that component's
                 layers = list(env.layers)
                 target = ("data", owner.idx)
                 on_top = f.ck is not None
+                target_any_data = True
             pos = None
             for k, (tag, _) in enumerate(layers):
-                if tag == target:
+                if tag == target or (target_any_data and (tag == "ovr" or (isinstance(tag, tuple) and tag[0] == "data"))):
                     pos = k
             # the merged dict carries a `forloop` key whenever a loop layer went into it: the library then takes it
             # for a loop layer itself (it is merged again into fills nested deeper, and forwarded by F7's mechanism)
             etag = "loop" if "forloop" in extra else "extra"
             if on_top or pos is None:
-                fenv = Env(tuple(layers) + ((etag, extra),))
+                # ("ovr": the layer that re-binds the component key to the fill's own component while it renders; it holds
+                # no variables but IS the last component layer for whatever is inserted during that render)
+                fenv = Env(tuple(layers) + ((etag, extra),) + ((("ovr", {}),) if on_top else ()))
             else:
                 fenv = Env(tuple(layers[:pos]) + ((etag, extra),) + tuple(layers[pos:]))
         elif self.mode == "isolated" or f.only:
